@@ -247,15 +247,16 @@ func (m *SegmentUInt64Map[V]) Values() iter.Seq[V] {
 
 // Clear removes all entries from the map
 func (m *SegmentUInt64Map[V]) Clear() {
-	// For each segment
+	// For each segment: subtract exactly what was cleared, under the
+	// segment's lock. A blanket count.Store(0) after the loop would erase
+	// the increment of any Set that landed in an already cleared segment.
 	for _, segment := range m.segments {
 		segment.rwlock.Lock()
+		itemsCleared := int64(segment.data.Len())
 		segment.data.Clear()
+		m.count.Add(-itemsCleared)
 		segment.rwlock.Unlock()
 	}
-
-	// Reset count
-	m.count.Store(0)
 }
 
 // ClearSegment clears a specific segment - for radical eviction
